@@ -73,6 +73,14 @@ CHECKS["C11"] = dict(
     technique="symbolic execution of the real solve() on affine forms (concrete LAPACK eigen-tables as exact rationals) + z3 QF_LRA tolerance query per cell",
     design="DESIGN.md section 5 C11")
 
+CHECKS["C06"] = dict(
+    text="Symbolic checking of the real support / weight / interpolation kernels (numba sources run as Python) on a marker whose offset inside its cell is a solver variable per axis (cases f=0, "
+         "0<f<1, and the acknowledged float-floor slack): z3 shows non-negativity, zero weight at distance >= 2 cells, partition of unity, vanishing first moment (Peskin) and exact interpolation "
+         "of constants and of the simulator's own coordinate field, in 2D and 3D for both kernels. Branches (abs, <, floor) are pruned by SMT queries; sqrt via s>=0, s^2=radicand with "
+         "solver-proved radicand merging; cos via instantiated shift axioms.",
+    technique="symbolic execution of the numba kernel sources with SMT-pruned branches + z3 (nlsat) identity/inequality queries; instantiated trig/sqrt axioms",
+    design="DESIGN.md section 5 C06")
+
 NOT_APPLICABLE = {
     "C02": "convergence of whole simulations over resolution families: thousands of time steps of floating-point code on 32^2..128^2 grids; no bound on steps/sizes under which a solver query is still the property (DESIGN.md section 5 C02). Its solver-decidable ingredients are claimed under C01, C03, C05, C16.",
 }
